@@ -5,6 +5,7 @@ package main
 // KNOWN-FINDING / VIOLATION lines, set the exit code.
 
 import (
+	"go/types"
 	"crypto/sha1"
 	"encoding/json"
 	"fmt"
@@ -140,6 +141,55 @@ func (cc *checkCtx) selectFuncs() []*ssa.Function {
 		if !matched {
 			cc.notes = append(cc.notes, "function under contract not found: "+pat)
 			cc.extra = append(cc.extra, &Obligation{Fn: pat, Name: pat + "#exists", Kind: "exists", Desc: "function listed for this property exists in the tree", Status: "failed", Raw: "no function matches " + pat})
+		}
+	}
+	// contracts written for functions that do not exist (wrong receiver, renamed or dead code that go/ssa does not
+	// build) would be silently unused: report them once, under every property whose functions share the package
+	{
+		repoPkgs := map[string]bool{}
+		for _, pk := range p.SSA.AllPackages() {
+			if pk.Pkg != nil && strings.HasPrefix(pk.Pkg.Path(), strings.TrimSuffix(modPrefix, "/")) {
+				repoPkgs[shortName(pk.Pkg.Path())] = true
+			}
+		}
+		propPkgs := map[string]bool{}
+		for f := range set {
+			if f.Pkg != nil {
+				propPkgs[shortName(f.Pkg.Pkg.Path())] = true
+			}
+		}
+		var names []string
+		for n := range p.Contracts {
+			names = append(names, n)
+		}
+		sort.Strings(names)
+		for _, n := range names {
+			ct := p.Contracts[n]
+			if ct.Model || p.Funcs[n] != nil {
+				continue
+			}
+			// package of the contract's function: "pkg.F", "(pkg.T).M", "(*pkg.T).M"
+			q := strings.TrimLeft(n, "(*")
+			pkg := q
+			if i := strings.LastIndex(q, "."); i >= 0 {
+				pkg = q[:i]
+				if j := strings.LastIndex(pkg, "."); j >= 0 && strings.Contains(n, ")") {
+					pkg = pkg[:j]
+				}
+			}
+			if !repoPkgs[pkg] || !propPkgs[pkg] {
+				continue
+			}
+			// interface method contracts have no function of their own
+			if strings.HasPrefix(n, "(") {
+				tn := strings.TrimPrefix(strings.TrimPrefix(n[:strings.Index(n, ")")], "("), "*")
+				if T := p.lookupType(tn); T != nil {
+					if _, isI := types.Unalias(T).Underlying().(*types.Interface); isI {
+						continue
+					}
+				}
+			}
+			cc.extra = append(cc.extra, &Obligation{Fn: n, Name: n + "#contract:exists", Kind: "contract", Desc: "the function this contract is written for exists in the tree (" + ct.File + ")", Status: "failed", Raw: "no such function: the contract would be silently unused"})
 		}
 	}
 	if cc.prop.Closure {
